@@ -304,6 +304,9 @@ func genWire() {
 		lf.def("myExtractFixed", "List (Nat × Nat)", pairList(fixed), "extractData: type code → fixed width of `rowData[pos:pos+K]` (0 for the `[]byte{}, 0` case)")
 		lf.def("myExtractLenEnc", "List Nat", natList(lenenc), "extractData: type codes read with LengthEncodedString")
 	}
+	genWireColDef(lf, menv)
+	genWireExecute(lf, menv)
+	genWireDescribe(lf)
 }
 
 // signedConst evaluates a constant declared as `Name T = -k` or `Name T = k` (the shared evaluator has no unary minus).
